@@ -292,33 +292,34 @@ def mask_rule(ctx):
     # alternating
     fi = _fn(p, TU, "create_alternating_binary_mask")
     n, even = (a for a, _ in fi.params())
-    for path in _single_return(fi):
-        core, stores = strip_stores(path.ret)
-        ct = norm_text(core).replace(" ", "")
-        zero = ct.startswith("torch.zeros(%s)" % n)
-        okst = False
-        if len(stores) == 1:
-            idx, val = stores[0]
-            it = norm_text(idx).replace(" ", "")
-            vt = norm_text(val).replace(" ", "")
-            sl = idx
-            if isinstance(sl, ast.Slice) and sl.upper is None and const_number(sl.step) == 2:
-                from ..shapeeval import ShapeEval
-                from ..axes import Unknown as _Unk
+    from ..shapeeval import ShapeEval
+    from ..axes import Unknown as _Unk
 
-                try:
-                    starts = []
-                    for ev_ in (True, False):
+    # one scenario per value of `even` (the choice of the start may be an expression, a branch, a table ...)
+    for ev_, want in ((True, 0), (False, 1)):
+        paths = _single_return(fi, {even: ev_})
+        if not paths:
+            res.undecide("create_alternating_binary_mask", "no returning path for even=%s" % ev_)
+        for path in paths:
+            core, stores = strip_stores(path.ret)
+            ct = norm_text(core).replace(" ", "")
+            zero = ct.startswith("torch.zeros(%s)" % n)
+            okst = False
+            if len(stores) == 1:
+                idx, val = stores[0]
+                vt = norm_text(val).replace(" ", "")
+                sl = idx
+                if isinstance(sl, ast.Slice) and sl.upper is None and const_number(sl.step) == 2:
+                    try:
                         lo = 0 if sl.lower is None else ShapeEval({}, {even: ev_}, p, fi.module).py(sl.lower)
-                        starts.append(int(lo) if isinstance(lo, (bool, int)) else None)
-                    if starts == [0, 1]:
-                        okst = vt.endswith("+1") or vt == "1"
-                except _Unk:
-                    pass
-        if zero and okst:
-            res.ok("create_alternating_binary_mask: zeros; mask[(0 if even else 1)::2] += 1")
-        else:
-            res.fail(Finding("UT-MASK", fi.module, fi.qualname, path.ret_node, "alternating mask must start from zeros and set every second entry starting at 0 (even=True) or 1 (even=False)"))
+                        if isinstance(lo, (bool, int)) and int(lo) == want:
+                            okst = vt.endswith("+1") or vt == "1"
+                    except _Unk:
+                        pass
+            if zero and okst:
+                res.ok("create_alternating_binary_mask(even=%s): zeros; mask[%d::2] += 1" % (ev_, want))
+            else:
+                res.fail(Finding("UT-MASK", fi.module, fi.qualname, path.ret_node, "alternating mask must start from zeros and set every second entry starting at 0 (even=True) or 1 (even=False)"))
     # mid split
     fi = _fn(p, TU, "create_mid_split_binary_mask")
     n = fi.params()[0][0]
